@@ -1815,3 +1815,31 @@ Proof.
     + apply (include_dfs_spec m _ (inc_succ_pinned_closed ev m)).
       eapply first_loop_inc; eauto.
 Qed.
+
+(* with the D13 repair finalize itself establishes the proviso of render_fuel_suffices *)
+Lemma finalize_d13_blocks ev sufs m tm comps :
+  ev_fix_d13 ev = true -> finalize_src ev sufs m = Ok (tm, comps) ->
+  forall n e, mfind n tm = Some e -> blocks_acyclic (e_lineage e) = true.
+Proof.
+  intros Hfx H n e He. unfold finalize_src in H.
+  destruct (first_loop ev m m [] [] []) as [[[par sz] tab]|]; [|discriminate].
+  destruct (if ev_fix_d10 ev then _ else _); [|discriminate].
+  destruct (negb _); [discriminate|].
+  rewrite Hfx in H. cbn [andb] in H.
+  destruct (negb (forallb _ _)) eqn:E; [discriminate|].
+  apply negb_false_iff in E. rewrite forallb_forall in E.
+  injection H as <- _. apply mfind_In in He. apply in_map_iff in He.
+  destruct He as [[k t] [Heq Hin]]. simpl in Heq. injection Heq as <- <-. simpl.
+  apply E. apply (in_map fst) in Hin. exact Hin.
+Qed.
+
+Theorem render_fuel_suffices_full ev sufs m :
+  msorted m -> ev_fix_d10 ev = true -> ev_fix_d13 ev = true -> forall tm comps,
+  finalize_src ev sufs m = Ok (tm, comps) ->
+  forall n,
+    render (render_fuel {| st_sufs := sufs; st_tpls := tm; st_comps := comps |}) (ev_prefixes ev)
+           {| st_sufs := sufs; st_tpls := tm; st_comps := comps |} n <> ROutOfFuel.
+Proof.
+  intros Hs H10 H13 tm comps Hfin. apply (render_fuel_suffices ev sufs m Hs H10 tm comps Hfin).
+  eapply finalize_d13_blocks; eauto.
+Qed.
